@@ -87,6 +87,13 @@ Proof.
   rewrite firstn_app, Nat.sub_diag, firstn_all. cbn. apply app_nil_r.
 Qed.
 
+Lemma nth_error_firstn_lt {A} (l : list A) : forall n i, (i < n)%nat -> nth_error (firstn n l) i = nth_error l i.
+Proof.
+  induction l as [|x r IH]; intros n i H.
+  - rewrite firstn_nil. reflexivity.
+  - destruct n as [|n]; [lia|]. destruct i as [|i]; cbn; [reflexivity|]. apply IH; lia.
+Qed.
+
 (* sorted-set insertion keeps exactly the members *)
 Lemma sins_in x y l : In y (sins x l) <-> y = x \/ In y l.
 Proof.
@@ -334,7 +341,7 @@ Section WithHash.
     rewrite Hh, (alookup_app_new _ _ _ Hm), (alookup_app_new _ _ _ Hms). cbn [option_map h_entries].
     repeat split; auto.
     unfold nthN, firstnN in *. rewrite nth_error_map.
-    rewrite nth_error_firstn by lia. rewrite Hse. reflexivity.
+    rewrite nth_error_firstn_lt by lia. rewrite Hse. reflexivity.
   Qed.
 
   Lemma fork_atomic_lemma w q e : snd (fork_strand w q) = Some e -> fst (fork_strand w q) = w.
